@@ -36,7 +36,7 @@ type selector struct {
 	re    *regexp.Regexp
 }
 
-var safetyKinds = []string{"idx", "slice", "nil", "div", "make", "typeassert", "shift", "panic"}
+var safetyKinds = []string{"idx", "slice", "nil", "div", "make", "typeassert", "shift", "panic", "devirt"}
 
 func (s *selector) match(o *Obl) bool {
 	if s.re == nil {
@@ -156,7 +156,20 @@ func verifyAll(ctx *Ctx, fns []*ssa.Function, sels []*selector, timeoutMs int, h
 			defer wg.Done()
 			sem <- struct{}{}
 			defer func() { <-sem }()
+			t0 := time.Now()
 			results[i] = verifyOne(ctx, fn, sels, timeoutMs, houdini)
+			if os.Getenv("GOVC_PROGRESS") != "" {
+				n, bad := 0, 0
+				for _, o := range results[i].Obls {
+					if o.Status != "" {
+						n++
+						if o.Status != "unsat" {
+							bad++
+						}
+					}
+				}
+				fmt.Fprintf(os.Stderr, "[%6.1fs] %s: %d obligations, %d undischarged, %d script lines\n", time.Since(t0).Seconds(), shortKey(results[i].Key), n, bad, len(results[i].Script))
+			}
 		}(i, fn)
 	}
 	wg.Wait()
